@@ -601,7 +601,10 @@ func (b *UnsafeLinkBuffer) WriteDirect(extra []byte, remainLen int) error {
 		newNode.off = malloc
 		newNode.buf = origin.buf[:malloc]
 		newNode.malloc = origin.malloc
-		newNode.unsetFlag(flagUnmanaged)
+		if origin.reusable() {
+			// only a block that netpoll allocated may be handed over to (and later freed by) newNode
+			newNode.unsetFlag(flagUnmanaged)
+		}
 		origin.malloc = malloc
 		origin.setFlag(flagUnmanaged)
 
